@@ -474,7 +474,7 @@ func firstOutput(c Case) []byte {
 
 var reNulRef = regexp.MustCompile(`&#(0+|[xX]0+|[xX][0-9a-fA-F]{9,}|[0-9]{12,});`)
 var reAwait = regexp.MustCompile(`\bawait\b`)
-var reDelimBeforeBrace = regexp.MustCompile(`[{;]\s*\*\s*\}`)
+var reDelimBeforeBrace = regexp.MustCompile(`[{;](\s|/\*[^*]*\*+([^/*][^*]*\*+)*/)*\*(\s|/\*[^*]*\*+([^/*][^*]*\*+)*/)*\}`)
 var reDashedFunctionDecl = regexp.MustCompile(`[{;]\s*--[-\w]*\(`)
 var reElseLexical = regexp.MustCompile(`else\s*\{[^{}]*\b(let|const|class)\b`)
 
